@@ -242,3 +242,24 @@ HARNESS = {
         'bound': 'plain / renamed / star re-export x consumer analysed before or after x defining module exporting the name itself or not; '
                  'consumers importing from either location, as base class, annotation and docstring cross-reference'},
 }
+
+
+# ---- on the written pages: the re-exported objects are listed where they are exported (through the templates of each theme) ----
+def _site_cases(tier, seed):
+    for k in ((0, 2) if tier == 'quick' else (0, 2, 3)):
+        yield {'privacy': 0, 'project': 'kitchen', 'options': k}
+
+
+def _site_check(case):
+    """the kitchen-sink package re-exports Engine, helper, Alpha, Beta (package) and Widget (sibling module): on the written pages each is
+    listed by a member table of the re-exporting module's page and by none of the defining module's page"""
+    from replay import c12
+    fails = c12.check_site(dict(case), 'C11') or []
+    if isinstance(fails, dict):
+        fails = [fails]
+    return [f for f in fails if str(f.get('class', '')).startswith(('unlisted-member', 'abort'))] or None
+
+
+HARNESS['pydoctor/themes/base/common.html'] = {'cases': _site_cases, 'check': _site_check,
+    'covers': ['pydoctor/themes/readthedocs/common.html', 'pydoctor/templatewriter/pages/__init__.py:PackagePage.packageInitTable'],
+    'bound': 'the kitchen-sink package under 2 (3) themes / option sets: every visible member is listed by a member table of its parent page'}
